@@ -6,6 +6,7 @@ from numpy import zeros, ones, array, random, log, sum, max, argmax, argsort, un
 from dsw.operation import Monitor, calculus_addition, calculus_multiplication, calculus_division
 from dsw.operation import bit_to_number, number_to_bit, number_to_dna, dna_to_number
 from dsw.graphized import obtain_vertices, obtain_formers, obtain_latters, path_matching, calculate_intersection_score
+from dsw import _verif
 
 
 def encode(binary_message, accessor, start_index,
@@ -71,6 +72,8 @@ def encode(binary_message, accessor, start_index,
         total_state = len(quotient)  # number of symbol.
 
         while quotient != "0":
+            if _verif.ON:
+                _verif.tick("enc_n", vertex=int(vertex_index), qlen=len(quotient))
             used_indices = where(accessor[vertex_index] >= 0)[0]
 
             if len(used_indices) > 1:  # current vertex contains information.
@@ -108,6 +111,8 @@ def encode(binary_message, accessor, start_index,
     else:
         location = 0
         while location < len(binary_message):
+            if _verif.ON:
+                _verif.tick("enc_f", vertex=int(vertex_index), location=int(location))
             used_indices = where(accessor[vertex_index] >= 0)[0]
             radix = len(used_indices)
 
@@ -228,6 +233,8 @@ def decode(dna_sequence, bit_length, accessor, start_index,
         quotient, saved_values = "0", []
 
         for location, nucleotide in enumerate(dna_sequence):
+            if _verif.ON:
+                _verif.tick("dec_n", vertex=int(vertex_index), location=int(location))
             used_indices = where(accessor[vertex_index] >= 0)[0]
 
             if len(used_indices) > 1:  # current vertex contains information.
@@ -268,6 +275,8 @@ def decode(dna_sequence, bit_length, accessor, start_index,
         message_location, binary_message = 0, zeros(shape=(bit_length,), dtype=int)
 
         for location, nucleotide in enumerate(dna_sequence):
+            if _verif.ON:
+                _verif.tick("dec_f", vertex=int(vertex_index), location=int(location))
             used_indices = where(accessor[vertex_index] >= 0)[0]
             radix = len(used_indices)
 
@@ -388,6 +397,8 @@ def repair_dna(dna_sequence, accessor, start_index, observed_length, vt_check=No
     detected_count, chuck_flag, visited_times = 0, False, 0
 
     while location < len(dna_sequence):
+        if _verif.ON:
+            _verif.tick("rep_scan", location=int(location), vertex=int(vertex_index), seglen=len(split_sequences[-1]))
         used_indices, nucleotide = where(accessor[vertex_index] >= 0)[0], dna_sequence[location]
         if dna_sequence[location] in [nucleotides[used_index] for used_index in used_indices]:
             split_sequences[-1] += nucleotide
@@ -623,6 +634,8 @@ def connect_coding_graph(observed_length, vertices, threshold, verbose=False):
     times, nucleotides = 1, "ACGT"
 
     while True:
+        if _verif.ON:
+            _verif.tick("gen_round", kept=int(sum(vertices != 0)))
         if verbose:
             print("Check the vertex collection requirement in round " + str(times) + ".")
 
@@ -665,6 +678,8 @@ def connect_coding_graph(observed_length, vertices, threshold, verbose=False):
 
         if threshold == 1:
             while True:
+                if _verif.ON:
+                    _verif.tick("gen_cycle", live=int(len(obtain_vertices(accessor))))
                 vertices = obtain_vertices(accessor)
                 graph = DiGraph()
                 for former_index, latter_indices in enumerate(accessor):
